@@ -7,6 +7,7 @@ reply of every client must be the Storage contract's reply on the one shared sta
 from __future__ import annotations
 
 import concurrent.futures as cf
+import itertools
 import json
 import os
 import random
@@ -104,6 +105,176 @@ F3_HISTORY = {"hid": "F3-finished-template-before-first-sync", "ops": [
     {"a": "get_all_trials", "s": 1, "states": ["COMPLETE"], "dc": 0, "as_list": 1, "c": 0},
     {"a": "get_all_trials", "s": 1, "states": ["ALL"], "dc": 1, "as_list": 0, "c": 1},
 ]}
+
+
+# ---------------------------------------------------------------------------------------------------
+# family "point reads before bulk reads": other clients create (and partly finish) trials of a study, the caching
+# client X knows some of them (created them itself, or listed them earlier while unfinished) and has never seen
+# others; X first issues POINT reads (single trial, params, attrs, number <-> id lookups, best trial, counts) on
+# seen and unseen trials and only THEN lists the study with every state filter; afterwards the remaining trials are
+# finished by the others and X lists again (whatever a point read did to X's cache shows up in these listings)
+# ---------------------------------------------------------------------------------------------------
+POINT_KINDS = ["get_trial", "get_trial_param", "get_trial_params", "get_trial_number", "get_trial_id_from_number",
+               "get_best_trial", "get_trial_ua", "get_trial_sa", "get_n_trials"]
+FILTERS = [["ALL"]] + [[s] for s in sd.STATES] + [["COMPLETE", "PRUNED", "FAIL"], ["RUNNING", "WAITING"]]
+_DX = {"c": "float", "g": 0, "k": 0}
+
+
+def _finished_tm(r):
+    return {"has": 1, "state": "COMPLETE", "values": [r.choice(sd.FINITE)], "params": {}, "ua": {}, "sa": {}, "iv": {},
+            "ts": 1, "tc": 2}
+
+
+def _point(r, kind, main, t, n):
+    if kind == "get_trial_id_from_number":
+        return {"a": kind, "s": main, "n": n}
+    if kind == "get_best_trial":
+        return {"a": kind, "s": main}
+    if kind == "get_n_trials":
+        return {"a": kind, "s": main, "state": r.choice(["ALL"] + sd.STATES)}
+    if kind == "get_trial_param":
+        return {"a": kind, "t": t, "name": "x"}
+    return {"a": kind, "t": t}
+
+
+def _bulk(r, main, states):
+    return {"a": "get_all_trials", "s": main, "states": list(states), "dc": r.randint(0, 1), "as_list": r.randint(0, 1)}
+
+
+class _PF:
+    """builder of one history of the family (bookkeeping of what exists only; never a reply)"""
+
+    def __init__(self, r, x, decoy):
+        self.r, self.x = r, x
+        self.others = [c for c in (0, 1, 2) if c != x]
+        self.ops = []
+        self.nT = 0                  # abstract trial ids handed out so far (storage-wide creation order)
+        self.main_trials = []        # abstract ids of the main study's trials, in number order
+        self.open = []               # unfinished ones among them
+        self.has_x = set()
+        if decoy:                    # ids and numbers of the main study differ
+            self.add({"a": "create_study", "name": "B", "dirs": [0]}, 2)
+            self.add({"a": "create_trial", "s": 1, "tm": {"has": 0}}, r.choice(self.others))
+            self.nT += 1
+        self.main = 2 if decoy else 1
+        self.decoy = 1 if decoy else 0
+        self.add({"a": "create_study", "name": "A", "dirs": [r.randint(0, 1)]}, r.choice([0, 1, 2]))
+
+    def add(self, op, c):
+        op = dict(op)
+        op["c"] = c
+        self.ops.append(op)
+
+    def create(self, c, tm=None):
+        tm = tm or {"has": 0}
+        self.add({"a": "create_trial", "s": self.main, "tm": tm}, c)
+        self.nT += 1
+        self.main_trials.append(self.nT)
+        if not (tm["has"] and tm["state"] in ("COMPLETE", "PRUNED", "FAIL")):
+            self.open.append(self.nT)
+        return self.nT
+
+    def finish(self, t, c, state=None):
+        r = self.r
+        state = state or r.choice(["COMPLETE", "COMPLETE", "COMPLETE", "PRUNED", "FAIL"])
+        vals = [r.choice(sd.FINITE)] if state == "COMPLETE" or (state == "PRUNED" and r.random() < 0.5) else sd.NONE_V
+        self.add({"a": "set_state", "t": t, "state": state, "values": vals}, c)
+        self.open.remove(t)
+
+    def touch(self, t, c):
+        r = self.r
+        y = r.random()
+        if y < 0.4 and t not in self.has_x:
+            self.has_x.add(t)
+            self.add({"a": "set_param", "t": t, "name": "x", "v": r.choice(sd.FINITE), "d": _DX}, c)
+        elif y < 0.7:
+            self.add({"a": r.choice(["set_trial_ua", "set_trial_sa"]), "t": t, "key": r.choice(sd.KEYS),
+                      "v": r.randrange(len(sd.ATTRS))}, c)
+        else:
+            self.add({"a": "set_iv", "t": t, "step": str(r.choice(sd.STEPS)), "v": r.choice(sd.FINITE)}, c)
+
+    def number(self, t):
+        """where to aim a number lookup: position of t in the main study (a number nobody has, if t is not one of its trials)"""
+        return self.main_trials.index(t) if t in self.main_trials else len(self.main_trials)
+
+    def tail(self):
+        """the others finish what is still open; X (and the other caching client) list again"""
+        r = self.r
+        for t in list(self.open):
+            self.finish(t, r.choice(self.others + [self.x]))
+            if r.random() < 0.5:
+                self.add(_bulk(r, self.main, r.choice(FILTERS)), self.x)
+        self.add(_bulk(r, self.main, ["ALL"]), self.x)
+        self.add(_bulk(r, self.main, ["COMPLETE"]), self.x)
+        self.add({"a": "get_n_trials", "s": self.main, "state": "ALL"}, self.x)
+        self.add(_bulk(r, self.main, ["ALL"]), self.others[0])
+
+
+def gen_point_first(rng, hid, rounds=2, n_filters=2):
+    r = random.Random(rng.getrandbits(48))
+    b = _PF(r, r.choice([0, 1]), r.random() < 0.6)
+    x, others = b.x, b.others
+    if r.random() < 0.5:
+        b.add(_bulk(r, b.main, ["ALL"]), x)                       # X has listed the (empty) study before
+    for rnd in range(rounds):
+        # writes: X and the others create trials, anybody finishes / changes unfinished ones
+        to_create = r.randint(2, 3) if rnd == 0 else r.randint(1, 2)
+        while to_create or (b.open and r.random() < 0.55):
+            y = r.random()
+            if to_create and (y < 0.5 or not b.open):
+                c = x if r.random() < 0.4 else r.choice(others)
+                z = r.random()
+                tm = _finished_tm(r) if z < 0.15 else None
+                if z > 0.88:
+                    tm = dict(_finished_tm(r), state="WAITING", values=sd.NONE_V, ts=0, tc=0)
+                b.create(c, tm)
+                to_create -= 1
+            elif y < 0.75:
+                b.finish(r.choice(b.open), r.choice([0, 1, 2]))
+            elif y < 0.9:
+                b.touch(r.choice(b.open), r.choice([0, 1, 2]))
+            elif y < 0.95:
+                b.add(_bulk(r, b.main, r.choice(FILTERS)), x)     # X saw some of them while they were unfinished
+            elif b.decoy:
+                b.add({"a": "create_trial", "s": b.decoy, "tm": {"has": 0}}, r.choice([0, 1, 2]))
+                b.nT += 1
+        # point reads by X: any kind, any order, trials X has seen and trials it has not
+        for _ in range(r.randint(2, 5)):
+            kind = r.choice(POINT_KINDS + ["get_trial", "get_trial"])
+            t = r.choice(b.main_trials) if r.random() < 0.93 else r.choice([0, 1])
+            b.add(_point(r, kind, b.main, t, b.number(t)), x)
+        # and only then bulk reads
+        for f in r.sample(FILTERS, min(n_filters, len(FILTERS))):
+            b.add(_bulk(r, b.main, f), x)
+    b.tail()
+    return {"hid": f"pf{hid}", "ops": b.ops}
+
+
+def enum_point_first(rng):
+    """thorough tier: every small skeleton of the family -- X listed before or not; each of three trials created by X or
+    by another client; every subset of them finished; ONE point read of every kind on every trial; then every filter"""
+    out = []
+    for early in (0, 1):
+        for creators in itertools.product((0, 1), repeat=3):               # 0 = X creates, 1 = another client creates
+            for fin in itertools.product((0, 1), repeat=3):
+                for kind in POINT_KINDS:
+                    for target in (1, 2, 3):
+                        r = random.Random(rng.getrandbits(48))
+                        x, decoy = r.choice([0, 1]), r.random() < 0.5
+                        b = _PF(r, x, decoy)
+                        if early:
+                            b.add(_bulk(r, b.main, ["ALL"]), x)
+                        ts = [b.create(x if who == 0 else r.choice(b.others)) for who in creators]
+                        for t, f in zip(ts, fin):
+                            if f:
+                                b.finish(t, r.choice([0, 1, 2]))
+                        b.add(_point(r, kind, b.main, ts[target - 1], target - 1), x)
+                        for f in r.sample(FILTERS, len(FILTERS)):
+                            b.add(_bulk(r, b.main, f), x)
+                        b.tail()
+                        out.append({"hid": f"pfe-x{x}e{early}d{int(decoy)}-{''.join(map(str, creators))}-"
+                                           f"{''.join(map(str, fin))}-{kind}-{target}", "ops": b.ops})
+    return out
 
 
 def run_history(kind, h, workdir):
